@@ -1,8 +1,7 @@
 // C16 -- substitutions behave as finite maps from parameters to expressions.
 // Monitor: binding history vs std::map reference model, queried for every parameter of the pool
 // (inside and outside the domain) after every binding.
-#include "common.hpp"
-#include <ipr/impl>
+#include "sweep_all.hpp"
 #include <map>
 
 using namespace vh;
@@ -15,7 +14,8 @@ static void body(Ctx& C)
           "parameter; after every binding every parameter of the pool is queried and compared with a std::map model (latest binding, "
           "else the parameter itself); elementary substitutions: one binding, every pool parameter queried; non-trivial = >= 2 parameters");
    C.need("elementary_queries_in_domain"); C.need("elementary_queries_outside_domain"); C.need("general_queries_in_domain");
-   C.need("general_queries_outside_domain"); C.need("rebindings"); C.need("self_bindings"); C.need("parameter_lists"); C.need("parameters_with_a_default"); C.need("chained_bindings");
+   C.need("general_queries_outside_domain"); C.need("rebindings"); C.need("self_bindings"); C.need("parameter_lists"); C.need("parameters_with_a_default"); C.need("chained_bindings"); C.need("histories_binding_values_of_every_factory_kind");
+   std::set<int> value_kinds;
    Rng seeds(C.seed);
    const int nhist = C.thorough ? 6000 : 120;
    for (int h = 0; h < nhist; ++h) {
@@ -64,6 +64,15 @@ static void body(Ctx& C)
       std::vector<const Expr*> values;
       for (int i = 0; i < 12; ++i) { std::string s = std::to_string(i); values.push_back(lex.make_literal(L.int_type(), std::u8string_view(reinterpret_cast<const char8_t*>(s.data()), s.size()))); }
       values.push_back(&L.int_type()); values.push_back(&L.true_value()); values.push_back(lex.make_phantom());
+      // values of every kind the factories make (the all-factories sweep run in this Lexicon): a substitution hands back the very
+      // expression that was bound, whatever kind of node it is -- a type, the type-view of an expression, a name, a declaration
+      if (h % 3 == 0) {
+         Sweep S(lex, unit, rng); S.run_all();
+         for (auto& m : S.made) if (m.node) if (auto e = dynamic_cast<const Expr*>(m.node)) { values.push_back(e); value_kinds.insert(int(e->category)); }
+         for (auto e : S.P.exprs) { values.push_back(&lex.get_as_type(*e)); values.push_back(&lex.get_as_type(*e, lex.get_transfer(lex.get_linkage(u8"C"), lex.get_calling_convention(u8"")))); }
+         for (auto q : pool) if (rng.chance(30)) values.push_back(&lex.get_as_type(*q));
+         C.count("histories_binding_values_of_every_factory_kind");
+      }
       auto where = [&](int step) { return J().n("history", h).n("parameters", np).n("step", step).str(); };
       // -- elementary substitutions
       for (int e = 0; e < 6; ++e) {
@@ -113,6 +122,7 @@ static void body(Ctx& C)
       }
       query_all(steps);
       C.eval(hash_mix(rng.next(), hash_mix(np, steps)), np >= 2);
+      C.maxi("node_kinds_of_bound_values", (long long)value_kinds.size());
       if (h == 0) C.sample(J().s("kind", "history").n("parameters", np).n("lists", nlists + 2).n("bindings", steps).n("bound_at_end", (long long)model.size()).str());
    }
 }
